@@ -134,6 +134,9 @@ def _worker_run(args):
     cross = dict(smt.CROSS)
     smt.CROSS.update(done=0, agree=0, disagree=0, cvc5_unknown=0, log=[])
     cross["ratnorm"] = dict(smt.RATNORM)
+    # equalities that fail exactly but hold within 1e-7 relative for ALL points (constants folded in floating point by the code)
+    cross["ratnorm"]["equal_up_to_rounding_S7"] = smt.ROUNDING["level"]
+    smt.ROUNDING["level"] = 0
     for k in smt.RATNORM:
         if k != "n":
             smt.RATNORM[k] = 0
@@ -316,12 +319,25 @@ def main(argv=None):
         payload = dict(v["replay"], property=pid, signature=sig, what=v["what"])
         path = write_replay(pid, payload)
         ok, detail = run_replay(path)
+        if not ok and "values_alt" in payload:
+            # the float-visible model did not reproduce: try the solver's first model
+            path2 = write_replay(pid, dict(payload, values=payload["values_alt"], values_alt=None))
+            ok2, detail2 = run_replay(path2)
+            if ok2:
+                ok, detail, path = ok2, detail2, path2
         if ok:
             tries[key] = "confirmed"
             if f:
                 known_hit[f["what"]] = {"n": 0, "sig": sig, "replay": path}
             else:
                 reported[sig] = (path, detail, v["what"])
+        elif v.get("rounding_level"):
+            # in exact arithmetic both sides differ at the solver's point by less than 1e-9 (1 + |value|) and no float run shows a
+            # difference: a constant folded in floating point by the code (rounding is outside the model, S7)
+            n_inconc += 1
+            if len(inconc_samples) < 8:
+                inconc_samples.append("rounding-level difference only (S7), not reproduced in floats: " + v["what"][:140])
+            tries[key] = (tries.get(key) or 0) + 1
         elif v.get("weak"):
             # candidate from the abstracted encoding only: not a counterexample of the real query
             n_inconc += 1
